@@ -23,6 +23,7 @@ type SEnv struct {
 	bound map[string]Term
 	facts []Term // typing side-facts collected during evaluation
 	depth int
+	callSite bool // evaluating a callee's postcondition at a call site: its call-history terms are unknown values
 }
 
 func (r *Runner) newEnv(st *State, pkg *ssa.Package) *SEnv {
@@ -552,6 +553,16 @@ func (e *SEnv) evalQuant(n *SQuant) Val {
 }
 
 func (e *SEnv) evalCall(n *SCall) Val {
+	if e.callSite {
+		switch n.Fun {
+		case "calls":
+			return specInt(Fresh("cs_calls", SInt))
+		case "calledwith", "argsat", "lastretb", "mapsamesince":
+			return specBool(Fresh("cs_hist", SBool))
+		case "lastret", "lastarg":
+			return Val{T: nil, C: []Term{Fresh("cs_val", SInt)}}
+		}
+	}
 	switch n.Fun {
 	case "len":
 		return specInt(e.lenOf(e.eval(n.Args[0])))
@@ -908,6 +919,13 @@ func (e *SEnv) evalCall(n *SCall) Val {
 		return specInt(e.intOf(e.eval(n.Args[0])))
 	case "has": // has(m, k): key k present in map m
 		m := e.eval(n.Args[0])
+		if m.T == nil {
+			// not a map value (e.g. lastret() of a callee that was not called on this path): no key is present
+			return specBool(False)
+		}
+		if _, isMap := m.T.Underlying().(*types.Map); !isMap {
+			sfail("has: map expected, got %v", m.T)
+		}
 		ok, _ := e.r.mapLookup(e.st, m, e.eval(n.Args[1]))
 		return specBool(ok)
 	case "closed":
